@@ -1095,7 +1095,8 @@ class AbstractExcelInPython(ABC):
         # Попытка преобразовать строку с процентами
         if text.endswith("%"):
             try:
-                return float(text[:-1].replace(",", ".")) / 100
+                if re.fullmatch(r'\s*[+-]?(\d+\.?\d*|\.\d+)([eE][+-]?\d+)?\s*', text[:-1].replace(",", "."), re.ASCII) is not None:
+                    return float(text[:-1].replace(",", ".")) / 100
             except ValueError:
                 pass
 
@@ -1103,7 +1104,8 @@ class AbstractExcelInPython(ABC):
         # Пример: "1 234,56" -> "1234.56"
         clean_text = text.replace(" ", "").replace(",", ".")
         try:
-            return float(clean_text)
+            if re.fullmatch(r'\s*[+-]?(\d+\.?\d*|\.\d+)([eE][+-]?\d+)?\s*', clean_text, re.ASCII) is not None:
+                return float(clean_text)
         except ValueError:
             pass
 
